@@ -148,6 +148,34 @@ def run_api(shard: dict, res: Res) -> None:
                 res.violate("table-rejected", f"well-formed table rejected: {e!r}", {"kind": "api", "entries": ser(entries), "s": ""})
                 continue
         res.see("table_styles", (len(entries), max(len(e[1]) for e in entries), max(len(e[0]) for e in entries), ref.codes_unique_prefix_free(), bool(ref.params)))
+        if ref.params and ref.codes_unique_prefix_free():
+            # control codes with parameter bytes: each is followed by exactly its N raw bytes; decoding gives the entry texts in order, every
+            # parameter byte as [0x..] behind its code, and nothing swallows the text that follows
+            for _ in range(6):
+                parts, want = [], []
+                for _k in range(rng.randint(2, 8)):
+                    t = rng.choice(list(ref.enc))
+                    parts.append(t); want.append(t)      # noqa: E702
+                    for _p in range(ref.params.get(t, 0)):
+                        v = rng.choice([0, 1, 0x41, 0x7F, 0x80, 0xFF, rng.randrange(256)])
+                        parts.append(f"[0x{v:02x}]"); want.append(f"[{hex(v)}]")      # noqa: E702
+                s2 = "".join(parts)
+                wit2 = {"kind": "api", "entries": ser(entries), "s": s2, "crlf": crlf, "noise": noise, "params": True}
+                try:
+                    toks2 = ref.tokens(s2)
+                except Unspecified:
+                    continue
+                if [v for k, v in toks2 if k == "entry"] != [w for w in want if not w.startswith("[0x") or w in ref.enc]:
+                    continue          # the entry texts run into each other in another way than they were put together: not this family's case
+                res.case((tuple(map(tuple, wit2["entries"])), s2), True)
+                res.count("parameter_roundtrips")
+                try:
+                    back2 = table.to_text(table.to_bytes(s2))
+                except Exception as e:  # noqa: BLE001
+                    res.violate("to-text-raises", f"to_text(to_bytes({s2!r})) raised {e!r}", wit2)
+                    continue
+                if back2 != "".join(want):
+                    res.violate("roundtrip", f"to_text(to_bytes({s2!r})) = {back2!r}, expected {''.join(want)!r} (parameter bytes behind their codes)", wit2)
         for si in range(shard["strings"]):
             s = gen_string(rng, ref)
             check_pair(res, table, ref, entries, s, crlf, noise)
